@@ -79,3 +79,13 @@ CHECKS["C07"] = (
     "Every byte the model V3 device receives on every connection is parsed with the independent codec and checked against four rules (nothing but token-bearing handshake requests before an answered handshake; every data packet under the latest completable session key of its own connection; counters start at 0, step by one and wrap only from 2^k-1; no data later than 12 h after the last handshake or later than the configured lifetime after connect). Histories mix sends, faults, explicit authentications with good/bad credentials, 12 h and lifetime jumps on the virtual clock and cancellations; long sessions cross the 12-bit wrap (4 200 exchanges quick, 66 000 thorough) and 70 000 protocol-level writes cross 65 536.",
     "Expiry rules allow one exchange of slack (retransmissions of an exchange that began before expiry); re-handshaking early is allowed.",
     "DESIGN.md 3/C07")
+CHECKS["C17"] = (
+    "exploration", "Hypothesis generation of advertised identities on a simulated UDP network + exhaustive type-byte sweep; replies from an independent builder anchored to captured replies; probe verified by the model hosts",
+    "Hosts with generated ids, ports, serials, names (every type byte, both hex cases), reported IPs, trailing bytes, reply versions and listening/source ports answer only the exact well-known probe arriving on their own port; Discover.discover / discover_single must report one object per host with exactly the advertised identity, the source address, and the right class. A changed probe constant, port list, field offset or byte order yields a missing or mis-identified host.",
+    "Reply layout taken from captured V2/V3 replies (the reference builder reproduces both byte for byte in the self-test).",
+    "DESIGN.md 3/C17")
+CHECKS["C18"] = (
+    "exploration", "exhaustive interleavings of small reply multisets + every bad-reply class value next to a good host + Hypothesis random host sets and arrival orders",
+    "Good hosts send 1..6 duplicate replies from both ports; bad hosts send one class of malformed reply (12 classes, each enumerated over its parameter, e.g. body cut at every length 0..45). All permutations of small multisets of replies are enumerated; larger ones are sampled. discover() must never raise and must report exactly the good hosts, once each, with their identity; with auto_connect a V2 host backed by a model device must come online.",
+    "Bad classes are limited to replies that cannot be parsed for certain (cuts inside the name that still parse are not asserted either way); V3 auto-connect is C19's domain.",
+    "DESIGN.md 3/C18")
